@@ -33,7 +33,9 @@ PROPS = {
     "C01": dict(tu="c01_half.cpp", san_scale=1.0 / 64, fuzz_s=0),
     "C02": dict(tu="c02_backends.cpp", variants=["fast"], prebuild="c02", link_extra=["-ldl"], fuzz_s=0),
     "C03": dict(tu="c03_halftype.cpp", san_scale=1.0 / 64, fuzz_s=0),
-    "C04": dict(tu=["c04_p%d.cpp" % i for i in range(1, 11)], san_scale=0.1, fuzz_s=0),
+    "C04": dict(tu=["c04_p%d.cpp" % i for i in range(1, 11)], san_scale=0.1, fuzz_s=0,
+                extras=[dict(src="c04_constexpr23.cpp", flags=["-std=c++2b", "-O1"], compilers=["g++", "clang++"],
+                             what="C++23 configuration: constant-evaluated (if consteval) accessors and operators vs named members and run-time evaluation")]),
     "C05": dict(tu="c05_products.cpp", san_scale=0.1, fuzz_s=60),
     "C06": dict(tu="c06_inverse.cpp", san_scale=0.1, fuzz_s=60),
     "C07": dict(tu="c07_exc.cpp", san_scale=0.1, fuzz_s=60),
@@ -48,8 +50,8 @@ PROPS = {
     "C16": dict(tu="c16_frustum.cpp", san_scale=0.1, fuzz_s=60),
     "C17": dict(tu="c17_scalar.cpp", san_scale=1.0 / 64, fuzz_s=0),
     "C18": dict(tu="c18_random.cpp", san_scale=0.1, fuzz_s=0),
-    "C19": dict(kind="py", script="py/c19_arrays.py"),
-    "C20": dict(kind="py", script="py/c20_vectorised.py", pool_shim=True),
+    "C19": dict(kind="py", script="py/c19_arrays.py", shards=8),
+    "C20": dict(kind="py", script="py/c20_vectorised.py", pool_shim=True, shards=8),
 }
 
 
@@ -442,6 +444,43 @@ def run_cpp(prop, tier, seed, only=None):
                     violations.append((f["replay"], "%s: %s | case: %s" % (f["key"], f["msg"], f["case"])))
                 else:
                     errors.append("toolchain disagreement on %s (found by %s binary, other binary rc=%d): %s" % (f["replay"], name, rc, f["msg"]))
+    # --- 3b. extra configuration programs (stand-alone, print FAIL lines)
+    extras_info = []
+    for ex in spec.get("extras", []):
+        for cc in ex["compilers"]:
+            try:
+                cfg, cfgkey = config_dir()
+                src = os.path.join(HERE, ex["src"])
+                key = sha_files([src], extra=cc + " ".join(ex["flags"]) + cfgkey + tree_key())[:20]
+                exe = os.path.join(BUILD, "bin", "%s-extra-%s-%s" % (prop, cc.replace("+", "x"), key))
+                if not os.path.exists(exe):
+                    for old in glob.glob(os.path.join(BUILD, "bin", "%s-extra-%s-*" % (prop, cc.replace("+", "x")))):
+                        os.remove(old)
+                    compile_one([cc] + ex["flags"] + ["-I", cfg, "-I", os.path.join(REPO, "src", "Imath"), src, "-o", exe + ".tmp%d" % os.getpid()], exe + ".tmp%d" % os.getpid())
+                    os.replace(exe + ".tmp%d" % os.getpid(), exe)
+            except BuildError as e:
+                print("ERROR build failed (not a verdict)")
+                log(str(e))
+                return 2
+            r = run([exe])
+            nchecks = 0
+            for line in r.stdout.splitlines():
+                if line.startswith("CHECKS"):
+                    nchecks = int(line.split()[1])
+            fails = [l for l in r.stdout.splitlines() if l.startswith("FAIL ")]
+            extras_info.append(dict(program=ex["src"], compiler=cc, flags=ex["flags"], checks=nchecks, failures=len(fails), what=ex["what"]))
+            if r.returncode not in (0, 1):
+                violations.append((os.path.join(rdir, "extra-crash.txt"), "extra/%s: program died rc=%s: %s" % (ex["src"], r.returncode, r.stdout[-300:])))
+            seen_k = set()
+            for l in fails:
+                k = l.split()[1]
+                if k in seen_k:
+                    continue
+                seen_k.add(k)
+                rp = os.path.join(rdir, "extra.%s.%s.txt" % (cc.replace("+", "x"), k.replace("/", "_")))
+                with open(rp, "w") as f:
+                    f.write("# %s built with %s %s\n%s\n" % (ex["src"], cc, " ".join(ex["flags"]), l))
+                violations.append((rp, "%s: %s [%s %s]" % (k, l[len("FAIL ") + len(k) + 1:], cc, " ".join(ex["flags"]))))
     # --- 4. thorough: libFuzzer campaign over the fuzzable sub-checks
     fuzz_info = None
     if tier == "thorough" and spec.get("fuzz_s", 0) > 0 and not violations and not only:
@@ -480,6 +519,9 @@ def run_cpp(prop, tier, seed, only=None):
                     replayed_saved_inputs=n_replayed, excluded_known_failures=excluded_known, known_findings_hit=sorted(known_hits.keys()))
     if fuzz_info:
         coverage["fuzz"] = fuzz_info
+    if extras_info:
+        coverage["extra_configurations"] = extras_info
+        coverage["evaluations"] += sum(e["checks"] for e in extras_info)
     write_evidence(prop, tier, seed, coverage, time.time() - t0, len(violations), ASSUME_CPP)
     shutil.rmtree(tmpd, ignore_errors=True)
     # --- 6. verdict
